@@ -452,7 +452,7 @@ Definition handle_timer (t : timer Id) : M unit :=
           modify (fun f => set_mems f ms) ;;;
           handle_apply_summary s as_down true ;;;
           adjust_connection_state ;;;
-          when (notify_down_members (cfg f)) (send_message mid TurnUndead)
+          when (apply_successful s && notify_down_members (cfg f)) (send_message mid TurnUndead)
       | None => ret tt
       end
   | TRemoveDown down =>
